@@ -1,5 +1,6 @@
 import PdeVerif.Model.Mesh
 import PdeVerif.Lemmas.Mesh
+import PdeVerif.Lemmas.MeshNd
 import PdeVerif.Lemmas.Basic
 /-
 C17 - splitting a grid into sub-grids changes nothing.
@@ -64,5 +65,116 @@ theorem slices_tile (sizes : List Nat) (num : Nat) (hsum : sizes.sum = num) (g :
     rw [sliceAt_eq false sizes _ hj] at a b
     simp only [gadd, Bool.false_eq_true, if_false, Nat.add_zero] at a b
     exact chunk_unique sizes ⟨a, b⟩ ⟨h2, h3⟩
+
+
+/-! ## any number of axes -/
+
+theorem id2idx_inRange (m : Mesh) {id : Nat} (h : id < m.len) : InRange (m.id2idx id) m.dec :=
+  unravel_inRange m.dec id h
+
+/-- `_idx2id` and `_id2idx` are inverse bijections between `0..len-1` and the valid node indices -/
+theorem id_idx_bijection (m : Mesh) :
+    (∀ id, id < m.len → InRange (m.id2idx id) m.dec ∧ m.idx2id (m.id2idx id) = id) ∧
+    (∀ idx, InRange idx m.dec → m.idx2id idx < m.len ∧ m.id2idx (m.idx2id idx) = idx) :=
+  ⟨fun id h => ⟨unravel_inRange m.dec id h, ravel_unravel m.dec id h⟩,
+   fun _ h => ⟨ravel_lt h, unravel_ravel h⟩⟩
+
+/-- the boxes cover the base array: every position of the array (with or without ghost cells)
+lies in the box of some node -/
+theorem boxes_cover (m : Mesh) (hm : m.Pos) (ghost : Bool) (g : List Nat) (hg : InRange g (m.arrShape ghost)) :
+    ∃ id, id < m.len ∧ inBox (m.box ghost id) g = true := by
+  obtain ⟨idx, h1, h2⟩ := exists_box ghost m.axes hm g hg
+  refine ⟨m.idx2id idx, ravel_lt h1, ?_⟩
+  unfold Mesh.box Mesh.id2idx Mesh.idx2id Mesh.dec
+  rw [unravel_ravel h1]; exact h2
+
+/-- without ghost cells the boxes are pairwise disjoint -/
+theorem boxes_disjoint (m : Mesh) {a b : Nat} (ha : a < m.len) (hb : b < m.len) (g : List Nat)
+    (h1 : inBox (m.box false a) g = true) (h2 : inBox (m.box false b) g = true) : a = b :=
+  unravel_injective m.dec ha hb
+    (box_unique m.axes _ _ g (unravel_inRange m.dec a ha) (unravel_inRange m.dec b hb) h1 h2)
+
+/-- any rank: the boxes without ghost cells are a disjoint cover of the base grid -/
+theorem slices_tile_nd (m : Mesh) (g : List Nat) (hg : InRange g m.shape) :
+    ∃! id, id < m.len ∧ inBox (m.box false id) g = true := by
+  -- positivity of the axes follows from `g` being in range
+  have hg' : InRange g (m.arrShape false) := by simpa [Mesh.arrShape, gadd] using hg
+  have hpos : m.Pos := pos_of_inRange m.axes g hg
+  obtain ⟨id, h1, h2⟩ := boxes_cover m hpos false g hg'
+  exact ⟨id, ⟨h1, h2⟩, fun j ⟨hj1, hj2⟩ => boxes_disjoint m hj1 h1 g hj2 h2⟩
+
+/-- the boxes stay inside the base array -/
+theorem box_in_array (m : Mesh) (ghost : Bool) {id : Nat} (h : id < m.len) (g : List Nat)
+    (hb : inBox (m.box ghost id) g = true) : InRange g (m.arrShape ghost) :=
+  inRange_of_inBox ghost m.axes _ g (unravel_inRange m.dec id h) hb
+
+/-! ### combine and extract -/
+
+theorem combineUpTo_succ {α : Type} (m : Mesh) (ghost : Bool) (subs : Nat → List Nat → α) (n : Nat) (g : List Nat) :
+    m.combineUpTo ghost subs (n + 1) g
+      = if inBox (m.box ghost n) g then some (subs n (vsub g (starts (m.box ghost n))))
+        else m.combineUpTo ghost subs n g := by
+  simp [Mesh.combineUpTo, List.range_succ, List.foldl_append, writeBox]
+
+/-- what `combine_field_data` leaves at position `g`: the value of the *last* node (highest id)
+whose box contains `g`, or nothing (`np.empty` content) if no box contains it -/
+theorem combineUpTo_spec {α : Type} (m : Mesh) (ghost : Bool) (subs : Nat → List Nat → α) (n : Nat) (g : List Nat) :
+    (∃ i, i < n ∧ inBox (m.box ghost i) g = true ∧
+        m.combineUpTo ghost subs n g = some (subs i (vsub g (starts (m.box ghost i)))) ∧
+        ∀ j, i < j → j < n → inBox (m.box ghost j) g = false) ∨
+    ((∀ i, i < n → inBox (m.box ghost i) g = false) ∧ m.combineUpTo ghost subs n g = none) := by
+  induction n with
+  | zero => right; simp [Mesh.combineUpTo]
+  | succ n ih =>
+    rw [combineUpTo_succ]
+    by_cases hb : inBox (m.box ghost n) g = true
+    · left
+      refine ⟨n, Nat.lt_succ_self n, hb, by simp [hb], ?_⟩
+      intro j h1 h2; omega
+    · have hb' : inBox (m.box ghost n) g = false := by simpa using hb
+      rcases ih with ⟨i, h1, h2, h3, h4⟩ | ⟨h1, h2⟩
+      · left
+        refine ⟨i, Nat.lt_succ_of_lt h1, h2, by simp [hb', h3], ?_⟩
+        intro j hj1 hj2
+        rcases Nat.lt_succ_iff_lt_or_eq.1 hj2 with hj | rfl
+        · exact h4 j hj1 hj
+        · exact hb'
+      · right
+        refine ⟨?_, by simp [hb', h2]⟩
+        intro i hi
+        rcases Nat.lt_succ_iff_lt_or_eq.1 hi with hi | rfl
+        · exact h1 i hi
+        · exact hb'
+
+/-- **combine ∘ extract = id**, any rank, with and without ghost cells: splitting an array onto
+the sub-grids and combining the pieces gives back every entry of the array (and leaves no entry
+unwritten) -/
+theorem combine_extract_id {α : Type} (m : Mesh) (hm : m.Pos) (ghost : Bool) (data : Arr α)
+    (g : List Nat) (hg : InRange g (m.arrShape ghost)) :
+    m.combine ghost (fun id => (m.extract ghost data id).get) g = some (data.get g) := by
+  obtain ⟨id, hid, hb⟩ := boxes_cover m hm ghost g hg
+  rcases combineUpTo_spec m ghost (fun id => (m.extract ghost data id).get) m.len g with ⟨i, _, h2, h3, _⟩ | ⟨h1, _⟩
+  · unfold Mesh.combine
+    rw [h3]
+    simp only [Mesh.extract, Arr.slice, vadd_vsub_of_inBox h2]
+  · rw [h1 id hid] at hb; exact absurd hb (by simp)
+
+/-- **extract ∘ combine = id** without ghost cells, any rank, for arbitrary sub-arrays: entry `p`
+of the sub-array of node `id` is found at the corresponding position of the combined array -/
+theorem extract_combine_id {α : Type} (m : Mesh) (subs : Nat → List Nat → α) {id : Nat} (hid : id < m.len)
+    (p : List Nat) (hp : InRange p (m.subShape id)) :
+    m.combine false subs (vadd (starts (m.box false id)) p) = some (subs id p) := by
+  have hidx := unravel_inRange m.dec id hid
+  have hp' : InRange p ((subShapeOf m.axes (m.id2idx id)).map (· + gadd false)) := by
+    simpa [gadd, Mesh.subShape] using hp
+  have hb : inBox (m.box false id) (vadd (starts (m.box false id)) p) = true :=
+    inBox_vadd false m.axes _ p hidx hp'
+  rcases combineUpTo_spec m false subs m.len (vadd (starts (m.box false id)) p) with ⟨i, h1, h2, h3, _⟩ | ⟨h1, _⟩
+  · have e : i = id := boxes_disjoint m h1 hid _ h2 hb
+    subst e
+    unfold Mesh.combine
+    rw [h3, vsub_vadd_cancel]
+    rw [starts_length, Mesh.box_length, InRange.length_eq hp, Mesh.subShape_length]
+  · rw [h1 id hid] at hb; exact absurd hb (by simp)
 
 end PdeVerif.Mesh.C17
